@@ -48,8 +48,9 @@ def _get_uses_of(node: ast.AST, scope: ast.AST, source: str) -> Iterable[ast.Nam
             continue
         if any(core.walk(funcdef.args, ast.arg(arg=name))):
             blacklisted_names.update(core.walk(funcdef, ast.Name))
-        for child in core.walk(funcdef, ast.Name(ctx=ast.Store, id=name)):
-            blacklisted_names.update(core.walk(child, ast.Name))
+        if any(core.walk(funcdef, ast.Name(ctx=ast.Store, id=name))):
+            # The name is a local variable of this function
+            blacklisted_names.update(core.walk(funcdef, ast.Name))
 
     augass_candidates = {
         target
@@ -63,7 +64,14 @@ def _get_uses_of(node: ast.AST, scope: ast.AST, source: str) -> Iterable[ast.Nam
         if refnode not in blacklisted_names
     }
 
-    for refnode in augass_candidates | ctx_load_candidates:
+    # Other places where the same variable is assigned, e.g. in a loop or an if statement
+    ctx_store_candidates = {
+        refnode
+        for refnode in core.walk(scope, ast.Name(ctx=ast.Store, id=name))
+        if refnode not in blacklisted_names and refnode is not node
+    }
+
+    for refnode in augass_candidates | ctx_load_candidates | ctx_store_candidates:
         n_start = (refnode.lineno, refnode.col_offset)
         n_end = (refnode.end_lineno, refnode.end_col_offset)
         if end < n_start:
@@ -487,10 +495,16 @@ def align_variable_names_with_convention(
         | constants.BUILTIN_FUNCTIONS
         | constants.PYTHON_KEYWORDS
     )
+    # Names in global and nonlocal statements cannot be renamed, so neither can their variables
+    declared_names = {
+        name for node in core.walk(ast_tree, (ast.Global, ast.Nonlocal)) for name in node.names
+    }
     renamings = {
         node: list(substitutes)[0]
         for node, substitutes in renamings.items()
-        if len(substitutes) == 1 and blacklisted_names.isdisjoint(substitutes)
+        if len(substitutes) == 1
+        and blacklisted_names.isdisjoint(substitutes)
+        and getattr(node, "id", getattr(node, "name", None)) not in declared_names
     }
     substitute_node_renamings = collections.defaultdict(set)
     for node, substitute in renamings.items():
